@@ -48,6 +48,8 @@ def faulted_run(t, bindir, hx, fault=None, timeout=20):
         env["VFAULT_LOG"] = logp
         if fault:
             env.update({"VFAULT_OP": fault[0], "VFAULT_FD": str(fault[1]), "VFAULT_K": str(fault[2]), "VFAULT_ERRNO": str(fault[3])})
+            if len(fault) > 4:
+                env["VFAULT_STICKY"] = "1"
         rc, out, err = tr.run(t.argv(bindir, w, hx), t.stdin, timeout=timeout, env=env, cwd=w)
         return rc, collect(t, w, out), err, parse_log(logp)
 
@@ -56,9 +58,9 @@ def replay_of(t, bindir, hx, fault=None, extra=None):
     r = {"tool": t.label, "argv": t.argv("$BIN", "$W", "$HX"), "stdin_hex": hexs(t.stdin),
          "files_hex": {k: hexs(v) for k, v in t.files.items()}}
     if fault:
-        r["fault"] = {"op": fault[0], "fd": fault[1], "k": fault[2], "errno": fault[3]}
-        r["how"] = ("cd $W && VFAULT_OP=%s VFAULT_FD=%s VFAULT_K=%s VFAULT_ERRNO=%s LD_PRELOAD=$HX/libvfault.so %s < stdin ; echo $?"
-                    % (fault[0], fault[1], fault[2], fault[3], " ".join(t.argv("$BIN", "$W", "$HX"))))
+        r["fault"] = {"op": fault[0], "fd": fault[1], "k": fault[2], "errno": fault[3], "sticky": len(fault) > 4}
+        r["how"] = ("cd $W && VFAULT_OP=%s VFAULT_FD=%s VFAULT_K=%s VFAULT_ERRNO=%s %sLD_PRELOAD=$HX/libvfault.so %s < stdin ; echo $?"
+                    % (fault[0], fault[1], fault[2], fault[3], "VFAULT_STICKY=1 " if len(fault) > 4 else "", " ".join(t.argv("$BIN", "$W", "$HX"))))
     if extra:
         r.update(extra)
     return r
@@ -87,6 +89,10 @@ def phase_faults(c, bindir, hx, model_cases, shard_cases):
                     chosen = [errs[(k + len(op)) % 3]] if k <= n else [errs[0]]
                 for en, eno in chosen:
                     jobs.append((t, (op, "any", k, eno), "fatal"))
+            # a failure that persists (disk stays full, pipe stays broken): every call from the k-th on fails
+            if op == "write":
+                for k in range(1, n + 1):
+                    jobs.append((t, (op, "any", k, 28, "sticky"), "fatal"))
             # benign controls: EINTR is retried by read/write loops; fsync EINVAL is ignored by design
             if op in ("read", "write") and n and t.kind != "iostream":
                 jobs.append((t, (op, "any", 1 + (c.rng.randrange(n)), EINTR), "benign"))
@@ -100,7 +106,7 @@ def phase_faults(c, bindir, hx, model_cases, shard_cases):
     with ThreadPoolExecutor(WORKERS) as ex:
         results = list(ex.map(work, jobs))
     for (t, fault, kind), (rc, outs, err, ev) in results:
-        op, fd, k, eno = fault
+        op, fd, k, eno = fault[:4]
         hit = [e for e in ev if e[0] == op and e[3] == -1 and e[4] == eno]
         base_outs, base_ev = base[t.label]
         bucket = "fault/%s/%s/%s" % (t.kind, op, "hit" if hit else "not-reached") if kind == "fatal" else "control/%s/%s" % (t.kind, op)
@@ -121,10 +127,72 @@ def phase_faults(c, bindir, hx, model_cases, shard_cases):
             c.broken.append("control: %s exits %s under benign fault %s (EINTR retry / ignored fsync errno): %s" % (t.label, rc, fault, err[-200:]))
         if kind == "fatal" and not hit and rc != 0:
             c.broken.append("control: %s exits %s although fault %s was never delivered: %s" % (t.label, rc, fault, err[-200:]))
+        if len(fault) > 4:
+            continue
         model_cases.append((t, fault, rc, ev, base_ev))
         if t.label == "shard":
             shard_cases.append((t, fault, rc, ev, base_ev, base_outs))
     return base
+
+
+# ---------------------------------------------------------------------------
+# Phase A2: stdout is a REGULAR FILE whose fsync fails (a write-back error surfacing at fsync), per descriptor:
+# every fsync of fd 1 in turn, and "every fsync of fd 1" -- whatever was synced before on other descriptors
+# (the wrappers first flush the pipe to their child: fsync -> EINVAL, ignored)
+
+def phase_file_stdout(c, bindir, hx):
+    jobs = []
+    # util::FileStream syncs at every flush (FileWriter::flush); the iostream tools never fsync, so an error that the
+    # OS reports only at fsync is invisible to them by design and not part of this phase
+    tools = [t for t in tr.catalogue() if t.kind != "iostream"]
+
+    def run_one(t, fault_env):
+        with tr.Scratch(SCRATCH, t) as w:
+            env = dict(os.environ)
+            env["LD_PRELOAD"] = os.path.join(hx, "libvfault.so")
+            logp = os.path.join(w, "vfault.log")
+            env["VFAULT_LOG"] = logp
+            env.update(fault_env)
+            outp = os.path.join(w, "stdout.file")
+            with open(outp, "wb") as f:
+                rc, _, err = tr.run(t.argv(bindir, w, hx), t.stdin, timeout=20, env=env, cwd=w, stdout=f)
+            return rc, open(outp, "rb").read(), err, parse_log(logp)
+
+    clean = {}
+    for t in tools:
+        rc, out, err, ev = run_one(t, {})
+        if rc != 0:
+            c.broken.append("clean run of %s with a regular file on stdout exits %s" % (t.label, rc))
+            continue
+        if not out:
+            continue                      # nothing is written to stdout (shard, dedupe -p): nothing to lose
+        n1 = len([e for e in ev if e[0] == "fsync" and e[1] == 1])
+        clean[t.label] = (out, n1)
+        for eno in (5, 28):
+            jobs.append((t, {"VFAULT_OP": "fsync", "VFAULT_FD": "1", "VFAULT_K": "1", "VFAULT_STICKY": "1", "VFAULT_ERRNO": str(eno)}, "every fsync of fd 1", eno))
+            for k in range(1, n1 + 1):
+                jobs.append((t, {"VFAULT_OP": "fsync", "VFAULT_FD": "1", "VFAULT_K": str(k), "VFAULT_ERRNO": str(eno)}, "fsync #%d of fd 1" % k, eno))
+
+    def work(j):
+        return j, run_one(j[0], j[1])
+
+    with ThreadPoolExecutor(WORKERS) as ex:
+        results = list(ex.map(work, jobs))
+    for (t, fenv, desc, eno), (rc, out, err, ev) in results:
+        delivered = [e for e in ev if e[0] == "fsync" and e[1] == 1 and e[3] == -1 and e[4] == eno]
+        earlier = [e for e in ev if e[0] == "fsync" and e[1] != 1]
+        c.count(("file-stdout", t.label, desc, eno), bucket="file-stdout/%s/%s" % (t.kind, "sticky" if "STICKY" in "".join(fenv) else "k-th"))
+        rep = {"tool": t.label, "argv": t.argv("$BIN", "$W", "$HX"), "stdin_hex": hexs(t.stdin), "files_hex": {k: hexs(v) for k, v in t.files.items()},
+               "status": rc, "stdout": "regular file", "fault": "%s fails with errno %d" % (desc, eno),
+               "fsyncs_on_other_descriptors_before": [(e[1], e[3], e[4]) for e in earlier][:6], "fsync_calls_on_fd1_seen": len([e for e in ev if e[0] == "fsync" and e[1] == 1]),
+               "how": "cd $W && %s LD_PRELOAD=$HX/libvfault.so %s < stdin > out.file; echo $?" % (" ".join("%s=%s" % kv for kv in sorted(fenv.items())), " ".join(t.argv("$BIN", "$W", "$HX")))}
+        if rc == "timeout":
+            c.violation("hang-under-fault: %s with stdout a regular file and %s failing" % (t.label, desc), rep)
+        elif rc == 0 and "VFAULT_STICKY" in fenv:
+            c.violation("io-error-exit-0: %s wrote %d bytes to a regular file on stdout and exits 0 although every fsync of that file fails with errno %d (%s)" % (
+                t.label, len(clean[t.label][0]), eno, "the failing fsync was issued and ignored" if delivered else "the file was never synced: %d earlier fsync(s) on other descriptors" % len(earlier)), rep)
+        elif rc == 0 and delivered:
+            c.violation("io-error-exit-0: %s exits 0 although %s (regular file) failed with errno %d" % (t.label, desc, eno), rep)
 
 
 # ---------------------------------------------------------------------------
@@ -688,6 +756,25 @@ def phase_model(c, drv, hx, model_cases, kernel_cases, child_cases, strace_cases
             hit_here = any(e[3] < 0 for e in sub)
             expect.append((rc_to_status(rc) if hit_here or rc == 0 else None, fmt_events(sub)))
             meta.append((t, ("shard-fd", fd) + tuple(fault), "prefix"))
+    # D7: the three wrappers under faults on their own data descriptors (child's stdin, stdout): each thread's
+    #     sub-trace replayed through wrapper_io_run
+    for t, fault, rc, ev, base_ev in model_cases:
+        if t.kind != "wrapper" or t.name == "warc_parallel" or rc == "timeout" or fault[0] == "read":
+            continue
+        child_fds = [e[1] for e in base_ev if e[0] == "write" and e[1] != 1]
+        if not child_fds:
+            continue
+        cfd = child_fds[0]
+        bad_ev = [e for e in ev if e[3] < 0 and not (e[4] == 4 and e[0] == "write") and not (e[0] == "fsync" and e[4] in BENIGN_FSYNC)]
+        if any(e[1] not in (cfd, 1) for e in bad_ev):
+            continue          # the fault hit a descriptor of Launch / the child's stdout reader: outside this model
+        sent = sum(e[2] for e in base_ev if e[0] == "write" and e[1] == cfd)
+        recs = sum(e[2] for e in base_ev if e[0] == "write" and e[1] == 1)
+        fsub = [e for e in ev if e[1] == cfd and e[0] != "read"]
+        csub = [e for e in ev if e[1] == 1 and e[0] != "read"]
+        mlines.append("WR %s %d %d %d 1 1 exit:0 | %s | %s" % (t.name, cfd, sent, recs, " ".join(outcome_tokens(fsub)), " ".join(outcome_tokens(csub))))
+        expect.append((rc_to_status(rc), (fmt_events(fsub), fmt_events(csub), [e[1] for e in bad_ev])))
+        meta.append((t, ("wrapper-io",) + tuple(fault), "wrapper-io"))
     # D5: iostream tools under strace injection: the segmentation of stdout into write(2) calls is the one observed in the
     #     fault-free run; the outcomes are the ones strace reports for the faulted run
     for t, inject, rc, calls, clean_calls in strace_cases:
@@ -716,6 +803,15 @@ def phase_model(c, drv, hx, model_cases, kernel_cases, child_cases, strace_cases
     bad = []
     for l, o, (est, eev), m in zip(mlines, out, expect, meta):
         st, _, tr = o.partition(" ")
+        if m[2] == "wrapper-io":
+            mf, _, mc = tr.partition(" | ")
+            rf, rcol, badfds = eev
+            # the thread whose call failed must match exactly; the other one may have been cut short by the abort
+            okf = (mf == rf) if (m[0] and badfds and badfds[0] != 1) or st == "exit:0" else mf.startswith(rf)
+            okc = (mc == rcol) if (badfds and badfds[0] == 1) or st == "exit:0" else mc.startswith(rcol)
+            if not (st == est and okf and okc):
+                bad.append((l, o, est, "%s | %s" % (rf, rcol), m))
+            continue
         if m[2] == "prefix":
             # another thread / descriptor may have ended the process first: the real sub-trace is then a prefix of the model's
             ok = (est is None or st == est) and (tr == eev if est is not None else tr.startswith(eev))
@@ -757,6 +853,7 @@ def main(argv):
     model_cases, kernel_cases, child_cases, strace_cases = [], [], [], []
     shard_cases = []
     base = phase_faults(c, bindir, hx, model_cases, shard_cases)
+    phase_file_stdout(c, bindir, hx)
     phase_kernel(c, bindir, hx, base, kernel_cases)
     phase_strace(c, bindir, hx, strace_cases)
     phase_children(c, bindir, hx, child_cases)
@@ -773,7 +870,7 @@ def main(argv):
     return c.finish(
         level="proof",
         rule="(A) every catalogue invocation of all 24 executables under libvfault: for each of read/write/fsync/close, EVERY k up to the number of such calls in the fault-free run (+1 unreachable control) fails with EIO/ENOSPC/EPIPE (quick: one errno per k, rotating; thorough: all three), plus EINTR / fsync-EINVAL controls; "
-             "(B) real kernel failures: stdout=/dev/full, stdout=pipe without reader, RLIMIT_FSIZE=n for every n up to the output size (iostream tools; boundary values for the others), stdin=directory; "
+             "(A2) stdout a regular file: every fsync of fd 1 in turn and all of them fail with EIO/ENOSPC (per-descriptor enumeration, independent of earlier fsyncs on pipes); (B) real kernel failures: stdout=/dev/full, stdout=pipe without reader, RLIMIT_FSIZE=n for every n up to the output size (iostream tools; boundary values for the others), stdin=directory; "
              "(B2) strace fault injection (reaches glibc stdio): EVERY read(0) and EVERY write(1) system call of the four iostream tools fails with EIO / ENOSPC / EPIPE; (C) cache/foldfilter/b64filter (+warc_parallel) with scripted children: every exit code 0..255 and every fatal signal after answering everything, and for every k in 0..L answers: exit 0/1/255, SIGKILL/SIGTERM/SIGSEGV, draining stdin or not; "
              "(D) extracted Coq model vs real code: random oracles for the util::FileStream mini tool (short writes, EINTR, zero writes, ignored fsync errnos, failures at every call index, outputs crossing the 8 KiB buffer), Wait for all exit codes and fatal signals, and replay of every (A)/(B)/(C) run through script_run / iostream_run / wrapper_status. "
              "distinct = distinct (tool, fault) / (wrapper, child behaviour) / oracle cases in which the fault was delivered",
